@@ -2,6 +2,7 @@ package scheduler
 
 import (
 	"bytes"
+	"context"
 	"os/exec"
 	"sync"
 	"sync/atomic"
@@ -20,6 +21,10 @@ type Scheduler struct {
 	pause      time.Duration
 
 	cancelled int32
+
+	// done once Cancel has been called: ends a stage condition that is being evaluated
+	ctx        context.Context
+	cancelFunc context.CancelFunc
 }
 
 // NewScheduler create new Scheduler instance
@@ -28,6 +33,7 @@ func NewScheduler(r runner.Runner) *Scheduler {
 		pause:      50 * time.Millisecond,
 		taskRunner: r,
 	}
+	s.ctx, s.cancelFunc = context.WithCancel(context.Background())
 
 	return s
 }
@@ -51,7 +57,7 @@ func (s *Scheduler) Schedule(g *ExecutionGraph) error {
 			}
 
 			if stage.Condition != "" {
-				meets, err := checkStageCondition(stage.Condition)
+				meets, err := checkStageCondition(s.ctx, stage.Condition)
 				if err != nil {
 					logrus.Error(err)
 					stage.UpdateStatus(StatusError)
@@ -109,6 +115,7 @@ func (s *Scheduler) Schedule(g *ExecutionGraph) error {
 // Cancel cancels executing tasks
 func (s *Scheduler) Cancel() {
 	atomic.StoreInt32(&s.cancelled, 1)
+	s.cancelFunc()
 	s.taskRunner.Cancel()
 }
 
@@ -195,10 +202,15 @@ func checkStatus(p *ExecutionGraph, stage *Stage) (ready bool) {
 	return ready
 }
 
-func checkStageCondition(condition string) (bool, error) {
-	cmd := exec.Command(condition)
+func checkStageCondition(ctx context.Context, condition string) (bool, error) {
+	cmd := exec.CommandContext(ctx, condition)
 	err := cmd.Run()
 	if err != nil {
+		// a condition ended by a cancellation has not been evaluated: its stage is neither met nor skipped
+		if ctxErr := ctx.Err(); ctxErr != nil {
+			return false, ctxErr
+		}
+
 		if utils.IsExitError(err) {
 			return false, nil
 		}
